@@ -62,6 +62,10 @@ def gen_events(args):
 def hash_by_name(name):
     if name.startswith("xof"):
         return toy.xof(int(name[3:]))
+    if name.startswith("lam:"):
+        # hash callables that are anonymous wrappers (same __name__, different digest sizes)
+        h = getattr(hashlib, name[4:])
+        return lambda data=b"": h(data)
     return getattr(hashlib, name)
 
 
@@ -98,9 +102,15 @@ def run(ctx):
                     cases.append((q, d, hname, data, 0, b""))
                 cases.append((q, d, hname, datas[0], rnd.choice((1, 2, 3)), b""))
                 cases.append((q, d, hname, datas[0], 0, bytes(rnd.randrange(256) for _ in range(rnd.choice((1, 40))))))
+    # anonymous hash wrappers of different widths used alternately in one process
+    for q in big[:4] + [251, 65537]:
+        for hname in ("lam:sha1", "lam:sha512", "lam:sha256", "lam:sha1"):
+            cases.append((q, rnd.randrange(1, q), hname, bytes(rnd.randrange(256) for _ in range(20)), 0, b""))
     for (q, d, hname, data, retry, extra) in cases:
         ctx.nontrivial.add((q, d, hname, data, retry, extra))
-    jobs = [(cases[i::core.NCPU], ctx.seed) for i in range(core.NCPU)]
+    lam = [c_ for c_ in cases if c_[2].startswith("lam:")]
+    rest = [c_ for c_ in cases if not c_[2].startswith("lam:")]
+    jobs = [(rest[i::core.NCPU], ctx.seed) for i in range(core.NCPU)] + [(lam, ctx.seed)]
     events = []
     with cf.ProcessPoolExecutor(max_workers=core.NCPU) as ex:
         for evs in ex.map(gen_events, jobs):
